@@ -39,7 +39,8 @@ fn describe(v: &JsValue) -> String {
         JsVariant::Symbol(_) => "symbol".into(),
         JsVariant::BigInt(_) => "bigint".into(),
     };
-    format!("{head} preds={} type={}", preds(v), type_kind(v))
+    let asi = match v.as_i32() { Some(i) => format!("{:x}", i as u32), None => "-".into() };
+    format!("{head} preds={} type={} tb={} asi32={asi}", preds(v), type_kind(v), u8::from(v.to_boolean()))
 }
 
 /// clone/drop bookkeeping probe: `canary` is a string owned by the heap value (or, for strings, the
